@@ -177,6 +177,16 @@ class Parser:
             if isinstance(node, Tree):
                 self._assign_comments(node)
 
+    def _previous_keyword(self, ip: Any) -> str | None:
+        """
+        The text of the token preceding the current one, in upper case
+        (Mapfile keywords are case-insensitive), or None
+        """
+        value_stack = ip.parser_state.value_stack
+        if value_stack and isinstance(value_stack[-1], str):
+            return value_stack[-1].upper()
+        return None
+
     def load(self, fp: IO[str]) -> Any:
         text = fp.read()
         if hasattr(fp, "name"):
@@ -218,17 +228,13 @@ class Parser:
                 if t.type == "UNQUOTED_STRING":
                     # Unquoted strings after SYMBOL can only be values, not attributes
                     if (
-                        ip.parser_state.value_stack
-                        and ip.parser_state.value_stack[-1] == "SYMBOL"
+                        self._previous_keyword(ip) == "SYMBOL"
                         and t.value.upper() not in SYMBOL_ATTRIBUTES
                     ):
                         t.type = "UNQUOTED_STRING_VALUE"
                 elif t.type == "GRID":
                     # Unquoted 'GRID' coming after NAME is always a value, not a composite type
-                    if (
-                        ip.parser_state.value_stack
-                        and ip.parser_state.value_stack[-1] == "NAME"
-                    ):
+                    if self._previous_keyword(ip) == "NAME":
                         t.type = "UNQUOTED_STRING_VALUE"
 
             tree = ip.resume_parse()
